@@ -6,7 +6,7 @@ corr   : every non-blockwise op of real plans (targeted family generators + rand
          theorems assume; the Lean whole-op semantics are evaluated on small integer arrays and compared with NumPy
          (and, for the modelled stack defect, with the real result).
 oracle : exprgen programs: compute() / cubed.compute(a, b, ...) vs NumPy on distinct-valued data; executors
-         {single-threaded, threads, processes (sampled)}; optimize_graph on/off; failures are shrunk and classified.
+         {single-threaded, threads, processes (sampled)}; optimize_graph on/off; failures are shrunk; former triggers of repaired defects are must-hold regression cases.
 """
 from __future__ import annotations
 
@@ -328,7 +328,8 @@ def family_cases(ctx, n):
                     ctx.disagree("repeat declared shape/chunks", case, "shape n*r, chunksize of x", [y.shape, y.chunks])
             elif fam == "stack":
                 k, ax = rng.randint(1, 3), rng.randint(0, nd)
-                others = [xp.asarray(an + 1000 * (j + 1), chunks=a.chunksize, spec=spec) for j in range(k)]
+                # inputs chunked differently from each other: unified to the first's chunking since f3856f5
+                others = [xp.asarray(an + 1000 * (j + 1), chunks=a.chunksize if rng.random() < 0.4 else tuple(rng.randint(1, s_ + 1) for s_ in an.shape), spec=spec) for j in range(k)]
                 case.update(n=k + 1, axis=ax)
                 y, ref = xp.stack([a] + others, axis=ax), np.stack([an] + [an + 1000 * (j + 1) for j in range(k)], axis=ax)
                 want = a.chunks[:ax] + ((1,) * (k + 1),) + a.chunks[ax:]
@@ -797,7 +798,7 @@ def _inp(shape, chunks, dtype="int64", data="arange", salt=0):
 
 
 def _cumsum_blocks(nb):
-    return (_prog([_inp([2 * nb + 1 if nb > 1 else 1, 3], [2, 2])],
+    return (_prog([_inp([2 * nb - 1, 3], [2, 2])],
                   [{"op": "cumulative_sum", "family": "cumulative", "in": [0], "params": {"axis": 0}}], [1]), "ok")
 
 
